@@ -5,63 +5,38 @@ Local Open Scope Z_scope.
 
 (** ===== write path ===== *)
 
-(** FULL STATEMENT (does not hold):
-      forall batch, point p of the batch is dropped  <->  time p < now - D   (D > 0).
-    The faithful model refutes the "<-" direction: MapShards skips old points when
-    it collects shard groups, but then maps EVERY point of the batch through
-    [sgList.ShardGroupAt], so a point older than the bound is accepted when a newer
-    point of the same batch falls into the same shard group (confirmed on the real
-    code, findings.d/C19.json).  Witness: 1-day groups, bound 2024-11-12T12:00Z,
-    batch [13:00 (in), 01:00 (old, same day), previous day 23:00 (old)]. *)
-Theorem C19_drop_iff_older_refuted :
-  exists sgd mb ts st' m, 0 < sgd /\ Forall in_range ts /\
-    write_points mb (init sgd) ts = Some (st', m) /\
-    exists t id, In (t, Some id) (combine ts m) /\ t < mb.
-Proof.
-  exists 86400000000000, 1731412800000000000,
-         [1731416400000000000; 1731373200000000000; 1731366000000000000].
-  eexists; eexists. split; [lia|]. split.
-  { repeat constructor; unfold MinNano, MaxNano, MinInt64, MaxInt64; lia. }
-  split; [vm_compute; reflexivity|].
-  exists 1731373200000000000, 1%N. split; [cbn; auto|lia].
-Qed.
-Print Assumptions C19_drop_iff_older_refuted.
-
-(** The "->" direction holds for ALL batches, states, shard-group durations and
-    bounds: a dropped point is older than the bound; the write never fails, and
-    the reported count is by definition the number of dropped points.  With
-    infinite retention (D = 0, bound = MinNanoTime) nothing is ever dropped. *)
-Theorem C19_dropped_implies_older_partial :
+(** Full statement (since the repair c26a5a4c30 of MapShards' second loop; before
+    it the "<-" direction was refuted: an old point was accepted when a newer point
+    of the same batch shared its shard group — former finding
+    old-point-accepted-with-newer-point-of-same-shard-group).
+    For ALL batches, states, shard-group durations and bounds mb = now - D (or
+    MinNanoTime when D = 0): the write never fails, a point is dropped iff it is
+    older than the bound, and the reported count is exactly the number of such
+    points. *)
+Theorem C19_drop_iff_older :
   forall mb st ts, Inv st -> Forall in_range ts ->
     exists st' m, write_points mb st ts = Some (st', m) /\ length m = length ts /\
-      (forall t, In (t, None) (combine ts m) -> t < mb) /\
-      (mb = MinNano -> count_none m = 0%N).
-Proof.
-  intros mb st ts HI HT.
-  destruct (write_points mb st ts) as [[st' m]|] eqn:E.
-  - destruct (drop_implies_older mb st ts st' m HI HT E) as [Hlen Hd].
-    exists st', m. split; [reflexivity|]. split; [exact Hlen|]. split; [exact Hd|].
-    intros ->. unfold count_none.
-    assert (F : filter (fun o : option N => match o with None => true | Some _ => false end) m = []).
-    { clear E. revert m Hlen Hd. induction ts as [|t r IH]; intros [|o m] Hlen Hd; try discriminate; [reflexivity|].
-      inversion HT as [|? ? Ht HT']; subst. cbn in *. destruct o as [i|].
-      - apply IH; auto.
-      - exfalso. specialize (Hd t (or_introl eq_refl)). unfold in_range, MinNano, MaxNano, MinInt64, MaxInt64 in *. lia. }
-    rewrite F. reflexivity.
-  - exfalso. unfold write_points in E.
-    destruct (ms_collect_min_spec mb ts st [] HI HT) as (st1 & lst & E1 & _). rewrite E1 in E. discriminate.
-Qed.
-Print Assumptions C19_dropped_implies_older_partial.
+      (forall t o, In (t, o) (combine ts m) -> (o = None <-> t < mb)) /\
+      count_none m = N.of_nat (length (filter (fun t => t <? mb) ts)).
+Proof. exact drop_iff_older. Qed.
+Print Assumptions C19_drop_iff_older.
 
-(** For single-point writes the statement is exact: dropped iff older than the bound. *)
-Theorem C19_single_point_dropped_iff_older :
-  forall mb st t, Inv st -> in_range t ->
-    exists st' o, write_points mb st [t] = Some (st', [o]) /\ (o = None <-> t < mb).
-Proof. exact single_point_iff. Qed.
-Print Assumptions C19_single_point_dropped_iff_older.
+(** Infinite retention (D = 0, bound = MinNanoTime) never drops anything. *)
+Theorem C19_infinite_retention_never_drops :
+  forall st ts, Inv st -> Forall in_range ts ->
+    exists st' m, write_points MinNano st ts = Some (st', m) /\ count_none m = 0%N.
+Proof.
+  intros st ts HI HT. destruct (drop_iff_older MinNano st ts HI HT) as (st' & m & E & _ & _ & C).
+  exists st', m. split; [exact E|]. rewrite C.
+  assert (F : filter (fun t => t <? MinNano) ts = []).
+  { clear -HT. induction ts as [|t r IH]; [reflexivity|]. inversion HT as [|? ? Ht HT']; subst. cbn [filter].
+    unfold in_range in Ht. assert (L : (t <? MinNano) = false) by lia. rewrite L. auto. }
+  rewrite F. reflexivity.
+Qed.
+Print Assumptions C19_infinite_retention_never_drops.
 
 (** A batch consisting only of points older than the bound is rejected entirely,
-    creates no shard group, and the dropped count is the batch size. *)
+    creates no shard group (the state is unchanged), and the count is the batch size. *)
 Theorem C19_all_old_batch_dropped_with_count :
   forall mb st ts, Inv st -> Forall in_range ts -> Forall (fun t => t < mb) ts ->
     write_points mb st ts = Some (st, map (fun _ => None) ts) /\
@@ -70,6 +45,13 @@ Proof.
   intros mb st ts HI HT Ho. split; [apply all_old_dropped; assumption|apply count_none_all].
 Qed.
 Print Assumptions C19_all_old_batch_dropped_with_count.
+
+(** The former refutation witness: the 01:00 point (11 h older than the bound) is
+    now dropped together with the previous day's point. *)
+Example C19_former_witness_fixed :
+  option_map snd (write_points 1731412800000000000 (init 86400000000000)
+     [1731416400000000000; 1731373200000000000; 1731366000000000000]) = Some [Some 1%N; None; None].
+Proof. vm_compute. reflexivity. Qed.
 
 (** ===== retention enforcement ===== *)
 
